@@ -1,5 +1,6 @@
 (* Executable comparison functions used by the correspondence checks (run under vm_compute). *)
-From Join Require Import Tok Names Ast Ir Print Gen.
+From Coq Require Import ZArith.
+From Join Require Import Tok Names Ast Ir Print Gen Comp Std Denote Concrete Spec.
 
 Fixpoint first_diff (i : N) (a b : list string) : N :=      (* 0 = equal; k+1 = first difference at index k *)
   match a, b with
@@ -28,3 +29,37 @@ Definition check_blocks (l : list (operand * bool)) : N :=
 
 Definition model_tokens (cfg : config) (inp : input) : list string :=
   match gen cfg inp with Ok e => print e | ConfigError n => ["<ConfigError>"] | InternalBug n => ["<InternalBug>"] end.
+
+(* ---- model vs model: den (gen p) against spec p under a concrete world (a test, not a proof) ---- *)
+Definition c_den (inp : input) (e : rexpr) (ρ : env) : comp dval :=
+  den (user_names inp) c_msem c_dotsem c_callsem c_await e ρ.
+Definition run_top (cfg : config) (c : comp dval) : comp val :=
+  let! d := c in if is_async cfg then await_d c_await d else to_val d.
+Definition model_run (cfg : config) (inp : input) (tbl : list opinfo) : list string :=
+  match gen cfg inp with
+  | Ok e => run_show tbl (Some "main") (run_top cfg (c_den inp e empty_env))
+  | ConfigError _ => ["<ConfigError>"]
+  | InternalBug _ => ["<InternalBug>"]
+  end.
+Definition spec_run (cfg : config) (inp : input) (tbl : list opinfo) : list string :=
+  match prepare cfg inp with
+  | Some sp => run_show tbl (Some "main") (run_top cfg (spec c_msem c_dotsem c_callsem c_await sp))
+  | None => ["<NoSpec>"]
+  end.
+Definition model_code (cfg : config) (inp : input) (tbl : list opinfo) : N :=
+  match gen cfg inp with
+  | Ok e => run_code tbl (Some "main") (run_top cfg (c_den inp e empty_env))
+  | _ => 100%N
+  end.
+(* 0 = agree and meaningful; 7000000+code = the model gave no meaning (ill-typed / stuck / unbound) *)
+Definition check_mm (cfg : config) (inp : input) (tbl : list opinfo) : N :=
+  match first_diff 0 (model_run cfg inp tbl) (spec_run cfg inp tbl) with
+  | 0%N => match model_code cfg inp tbl with
+           | 1%N | 2%N | 6%N | 100%N => (7000000 + model_code cfg inp tbl)%N
+           | _ => 0%N
+           end
+  | d => d
+  end.
+(* B: the model against what the compiled macro did *)
+Definition check_rt (cfg : config) (inp : input) (tbl : list opinfo) (observed : list string) : N :=
+  first_diff 0 (model_run cfg inp tbl) observed.
